@@ -141,7 +141,7 @@ PRE = [
 ]
 
 
-def rf_spec(kind, plural=True, update=None, create=None, readonly=False, delete=False, post=True):
+def rf_spec(kind, plural=True, update=None, create=None, readonly=False, delete=False, post=True, annot=False):
     spec = {
         "apiConfig": {"apiVersion": "c18.koreo.dev/v1", "kind": kind, "name": "=inputs.name", "namespace": "ns"},
         "preconditions": copy.deepcopy(PRE),
@@ -150,6 +150,14 @@ def rf_spec(kind, plural=True, update=None, create=None, readonly=False, delete=
                    "ready": "=has(resource.status) && has(resource.status.ready)",
                    "n": "=inputs.a + 1"},
     }
+    if annot:
+        # user annotations next to Koreo's last-applied one, a field compared against last-applied, and
+        # a return value that reads the annotations: the next case's behaviour depends on the WHOLE
+        # carried-forward object, metadata.annotations included
+        spec["resource"] = {"metadata": {"annotations": {"team": "=inputs.name", "tier": "gold"}},
+                            "spec": {"x-koreo-compare-last-applied": ["a"], "a": "=inputs.a", "b": "=inputs.b"}}
+        spec["return"]["annotations"] = ("=has(resource.metadata.annotations) ? "
+                                         "size(resource.metadata.annotations) : 0")
     if plural:
         spec["apiConfig"]["plural"] = kind.lower() + "s"
     if readonly:
@@ -178,6 +186,8 @@ def zoo():
         {"kind": "ResourceFunction", "name": "c18-readonly", "spec": rf_spec("WidgetO", readonly=True)},
         {"kind": "ResourceFunction", "name": "c18-delete", "spec": rf_spec("WidgetD", delete=True, post=False)},
         {"kind": "ResourceFunction", "name": "c18-lookup", "spec": rf_spec("WidgetL", plural=False)},
+        {"kind": "ResourceFunction", "name": "c18-annot", "spec": rf_spec("WidgetA", annot=True)},
+        {"kind": "ResourceFunction", "name": "c18-annot-nopost", "spec": rf_spec("WidgetB", annot=True, post=False)},
         {"kind": "ValueFunction", "name": "c18-value", "spec": {
             "preconditions": copy.deepcopy(PRE),
             "locals": {"twice": "=inputs.a * 2"},
@@ -188,7 +198,7 @@ def zoo():
     ]
 
 
-ZOO_WEIGHTS = [6, 3, 2, 2, 2, 1, 2, 2]
+ZOO_WEIGHTS = [5, 3, 2, 2, 2, 1, 3, 3, 2, 2]
 
 
 # ---------------------------------------------------------------------------
@@ -223,8 +233,11 @@ def gen_resource(rng, kind, inputs):
         res["status"] = {"ready": True}
     if rng.random() < 0.1:
         res.setdefault("status", {})["broken"] = True
-    if rng.random() < 0.15:
+    if rng.random() < 0.25:
         res["metadata"]["annotations"] = {"note": "kept"}
+        if rng.random() < 0.5:
+            res["metadata"]["annotations"]["team"] = res["metadata"]["name"]
+            res["metadata"]["annotations"]["tier"] = "gold"
     if rng.random() < 0.04:
         res["metadata"].setdefault("annotations", {})[CRASH_KEY] = "1"
     if rng.random() < 0.1:
@@ -386,13 +399,30 @@ class Recorder:
 
     def begin(self, idx, base_inputs, current_resource):
         self.cur = {"idx": idx, "start_inputs": canon(base_inputs), "start_resource": canon(current_resource),
-                    "api": None, "api_resource": None, "calls": [], "fut": None, "rov": None,
+                    "api": None, "api_resource": None, "calls": [], "mat": None, "fut": None, "rov": None,
                     "ioverlay_err": False}
         self.cases.append(self.cur)
 
 
 REC: Recorder | None = None
 _PATCHED = {}
+
+
+class _snapshotting:
+    """wraps MockApi.call_api's context manager: right after the mock has materialised the
+    object (before anything else can touch it) a deep JSON copy is recorded — this is "the
+    resource state produced by the case" that the next case has to start from"""
+
+    def __init__(self, inner, api, cur):
+        self.inner, self.api, self.cur = inner, api, cur
+
+    async def __aenter__(self):
+        resp = await self.inner.__aenter__()
+        self.cur["mat"] = canon(self.api.materialized)
+        return resp
+
+    async def __aexit__(self, *exc):
+        return await self.inner.__aexit__(*exc)
 
 
 def install():
@@ -423,43 +453,50 @@ def install():
                 # harness-only: lets a PATCH/DELETE escape reconcile_* as an exception, so that the
                 # runner's behaviour on a crashing function is observed too
                 raise RuntimeError("c18 injected API failure")
-            if REC is not None and REC.cur is not None:
+            cur = REC.cur if REC is not None else None
+            if cur is not None:
                 if args and "DELETE" in args:
-                    REC.cur["calls"].append(None)
+                    cur["calls"].append(None)
                 else:
-                    REC.cur["calls"].append(json.loads(kwargs.get("data", "{}")))
-            return super().call_api(*args, **kwargs)
+                    cur["calls"].append(json.loads(kwargs.get("data", "{}")))
+            inner = super().call_api(*args, **kwargs)
+            if cur is None:
+                return inner
+            return _snapshotting(inner, self, cur)
 
     async def rrf(**kw):
         cur = REC.cur if REC is not None else None
+        given = canon(kw["inputs"])          # what the function is run with (snapshot BEFORE the call)
         try:
             r = await orig_rrf(**kw)
         except BaseException:
             if cur is not None:
-                cur["fut"] = {"inputs": canon(kw["inputs"]), "raised": True, "outcome": None}
+                cur["fut"] = {"inputs": given, "raised": True, "outcome": None}
             raise
         if cur is not None:
-            cur["fut"] = {"inputs": canon(kw["inputs"]), "raised": False, "outcome": outcome_view(r.outcome)}
+            cur["fut"] = {"inputs": given, "raised": False, "outcome": outcome_view(r.outcome)}
         return r
 
     async def rvf(**kw):
         cur = REC.cur if REC is not None else None
+        given = canon(kw["inputs"])
         try:
             r = await orig_rvf(**kw)
         except BaseException:
             if cur is not None:
-                cur["fut"] = {"inputs": canon(kw["inputs"]), "raised": True, "outcome": None}
+                cur["fut"] = {"inputs": given, "raised": True, "outcome": None}
             raise
         if cur is not None:
-            cur["fut"] = {"inputs": canon(kw["inputs"]), "raised": False, "outcome": outcome_view(r)}
+            cur["fut"] = {"inputs": given, "raised": False, "outcome": outcome_view(r)}
         return r
 
     def eo(**kw):
         from koreo import result
+        given_inputs, given_base = canon(kw["inputs"]), canon(kw["base"])
         r = orig_eo(**kw)
         if REC is not None and REC.cur is not None:
             err = isinstance(r, result.PermFail)
-            REC.cur["rov"] = {"inputs": canon(kw["inputs"]), "base": canon(kw["base"]),
+            REC.cur["rov"] = {"inputs": given_inputs, "base": given_base,
                               "result": None if err else canon(r)}
         return r
 
@@ -689,7 +726,7 @@ def is_setup_error(c, ent):
     return msg.startswith("Can not overlay until the full resource exists")
 
 
-def compare_runs(base_test, base_ob, der_test, der_ob, order_preserved):
+def compare_runs(base_test, base_ob, der_test, der_ob, order_preserved, exclude=()):
     """None, or (signature, description, label) for the first case whose result changed"""
     if base_ob["raised"] or der_ob["raised"]:
         return None          # a crashing case is outside the property (reported separately)
@@ -697,7 +734,7 @@ def compare_runs(base_test, base_ob, der_test, der_ob, order_preserved):
     b, sb = run_summary(der_test, der_ob)
     for label, ea in a.items():
         eb = b.get(label)
-        if eb is None or ea["prefix"] != eb["prefix"]:
+        if eb is None or ea["prefix"] != eb["prefix"] or label in exclude:
             continue
         # excluded: at or after a setup error in either run
         if sa is not None and ea["pos"] >= sa:
@@ -747,7 +784,7 @@ def chain_oracle(test, ob):
             continue            # a non-variant case that could not run: the runner stops (not judged here)
         api = tr[k]["api"]
         want = (tr[k]["fut"]["inputs"],
-                canon(api.materialized) if api._api_called else tr[k]["api_resource"])
+                tr[k]["mat"] if api._api_called else tr[k]["api_resource"])
         if skey(got[0]) != skey(want[0]):
             return ("chain: next case does not start from the inputs the previous non-variant case ran with", k, got, want)
         if skey(got[1]) != skey(want[1]):
@@ -850,7 +887,7 @@ def to_coq(test, ob, healthy=True):
                 api = tr["api"]
                 if not tr.get("crashed"):
                     verdict_rows.append("{| v_case := %s; v_outcome := %s; v_mat := %s; v_del := %s; v_pass := %s |}" % (
-                        cnat(k), cnat(oc), cnat(p.add(canon(api.materialized))), cbool(bool(api._delete_called)),
+                        cnat(k), cnat(oc), cnat(p.add(tr["mat"])), cbool(bool(api._delete_called)),
                         copt(tr["pass"], cbool)))
         if tr["rov"] is not None:
             r = tr["rov"]
@@ -934,7 +971,10 @@ def gen_test(rng, env, quick):
             truthful = rng.random() < 0.6
         else:
             truthful = k != fail_nonvariant_at
-        plan.append({"pref": rng.choice(kinds), "truthful": truthful, "fixed": False})
+        pref = rng.choice(kinds)
+        if fn["name"].startswith("c18-annot") and rng.random() < 0.4:
+            pref = "resource"
+        plan.append({"pref": pref, "truthful": truthful, "fixed": False})
     if rng.random() < 0.12 and test["cases"] and inputs:
         # exercise the runner's inputs-overlay-error branch (shimmed _overlay), mostly in variants
         vs = [c for c in test["cases"][:-1] if c.get("variant") and not c.get("skip")]
@@ -956,7 +996,7 @@ async def fix_assertions(env, fn, test, plan, rng, repair=True):
             k = tr["idx"]
             if plan[k]["fixed"] or tr["api"] is None or tr["fut"] is None or tr["fut"]["raised"] or tr.get("crashed"):
                 continue
-            seen = {"outcome": tr["fut"]["outcome"], "mat": canon(tr["api"].materialized),
+            seen = {"outcome": tr["fut"]["outcome"], "mat": tr["mat"],
                     "deleted": bool(tr["api"]._delete_called)}
             set_assertion(test["cases"][k], build_assertion(fn, plan[k]["pref"], plan[k]["truthful"], seen, rng))
             plan[k]["fixed"] = True
@@ -1057,6 +1097,7 @@ async def check_test(ctx: Ctx, env: Env, fn, test, rng, cases_out, terms_out, do
                              observed=None, expected="identical results for every case with the same non-variant predecessors"))
     # fold the prefix: case k alone, started from what the last non-variant case before it produced
     await fold_prefix_oracle(ctx, env, test, ob, rng)
+    await assertion_swap_oracle(ctx, env, fn, test, ob, rng)
     # freshly prepared, after everything else ran against the same function
     ft3 = await env.prepare(test)
     ob3 = await env.run(ft3, record=False)
@@ -1069,6 +1110,70 @@ async def check_test(ctx: Ctx, env: Env, fn, test, rng, cases_out, terms_out, do
                          what="running derived FunctionTests changed the prepared Function under test",
                          case=test, observed=fingerprint(env.function(fn)), expected=fut_before))
     return ob
+
+
+async def assertion_swap_oracle(ctx, env, fn, test, ob, rng):
+    """the state a passing case hands on is what the function did, not how the case asserted it: the
+    same FunctionTest with some passing cases' assertions replaced by TRUE assertions of another kind
+    (expectResource <-> expectOutcome <-> expectDelete <-> expectReturn) must give every other case
+    the same result.  Judged only if the swapped cases still pass."""
+    if ob["raised"]:
+        return
+    res = ob["results"]
+    cands = [k for k, tr in enumerate(ob["trace"])
+             if k < len(res) and res[k]["pass"] and tr["api"] is not None and tr["fut"] is not None
+             and not tr["fut"]["raised"] and not tr.get("crashed") and not test["cases"][k].get("skip")]
+    if not cands:
+        return
+    chosen = [k for k in cands if rng.random() < 0.6] or [rng.choice(cands)]
+    kinds = ["resource", "return", "outcome", "delete"] if fn["kind"] == "ResourceFunction" else ["return", "outcome"]
+    keyname = {"expectResource": "resource", "expectReturn": "return", "expectOutcome": "outcome", "expectDelete": "delete"}
+    swapped = dict(test, cases=copy.deepcopy(test["cases"]))
+    for k in chosen:
+        c = swapped["cases"][k]
+        now = next((keyname[a] for a in ASSERT_KEYS if a in c), None)
+        tr = ob["trace"][k]
+        seen = {"outcome": tr["fut"]["outcome"], "mat": tr["mat"], "deleted": bool(tr["api"]._delete_called)}
+        # a passing expectResource case is the interesting one to turn into something else, and vice versa
+        pref = rng.choice([x for x in kinds if x != now] or kinds)
+        if now != "resource" and "resource" in kinds and rng.random() < 0.5:
+            pref = "resource"
+        set_assertion(c, build_assertion(fn, pref, True, seen, rng))
+    try:
+        sob = await env.run(await env.prepare(swapped), record=False)
+    except PrepareError:
+        ctx.count("derived:assertion-swapped-prepare-failed")
+        return
+    if sob["raised"] or any(k >= len(sob["results"]) or not sob["results"][k]["pass"] for k in chosen):
+        ctx.count("derived:assertion-swapped-not-judged")
+        return
+    ctx.count("derived:assertion-swapped")
+    sob["trace"] = []
+    bad = compare_runs(test, ob, swapped, sob, True, exclude={test["cases"][k]["label"] for k in chosen})
+    if bad:
+        sig, what, label = bad
+        # smallest reproduction: swap one case at a time
+        small = swapped
+        for k in chosen:
+            one = dict(test, cases=copy.deepcopy(test["cases"]))
+            one["cases"][k] = copy.deepcopy(swapped["cases"][k])
+            try:
+                oob = await env.run(await env.prepare(one), record=False)
+            except PrepareError:
+                continue
+            oob["trace"] = []
+            if not oob["raised"] and k < len(oob["results"]) and oob["results"][k]["pass"]:
+                b1 = compare_runs(test, ob, one, oob, True, exclude={test["cases"][k]["label"]})
+                if b1:
+                    upto = max(k, next(i for i, c in enumerate(test["cases"]) if c["label"] == b1[2])) + 1
+                    small = dict(one, cases=one["cases"][:upto])
+                    test = dict(test, cases=test["cases"][:upto])
+                    sig, what = b1[0], b1[1]
+                    break
+        ctx.fail(Failure(signature=f"assertion-swapped: {sig}",
+                         what="changing only HOW an earlier passing case asserts (both assertions true) changes a later case: " + what,
+                         case={"test": test, "derived": small, "how": "assertion-swapped"},
+                         expected="identical results for every other case"))
 
 
 async def fold_prefix_oracle(ctx, env, test, ob, rng):
@@ -1088,7 +1193,7 @@ async def fold_prefix_oracle(ctx, env, test, ob, rng):
         if tr[j]["api"] is None or tr[j]["fut"] is None:
             return            # cannot happen before an executed case; be safe
         api = tr[j]["api"]
-        prod = (tr[j]["fut"]["inputs"], canon(api.materialized) if api._api_called else tr[j]["api_resource"])
+        prod = (tr[j]["fut"]["inputs"], tr[j]["mat"] if api._api_called else tr[j]["api_resource"])
     single = dict(test, inputs=copy.deepcopy(prod[0]), resource=copy.deepcopy(prod[1]),
                   cases=[copy.deepcopy(test["cases"][k])])
     try:
@@ -1246,7 +1351,8 @@ async def amain(ctx: Ctx, tests_from_corpus, n_tests):
                 if "derived" in entry and entry.get("how") != "fold-prefix":
                     der = entry["derived"]
                     dob = await env.run(await env.prepare(der))
-                    bad = compare_runs(t, ob, der, dob, entry.get("how") != "variants-moved")
+                    bad = compare_runs(t, ob, der, dob, entry.get("how") != "variants-moved",
+                                       exclude=pair_exclude(t, der, entry.get("how")))
                     if bad:
                         ctx.fail(Failure(signature=f"{entry.get('how')}: {bad[0]}", what=f"corpus pair: {bad[1]}", case=entry))
             except PrepareError:
@@ -1323,6 +1429,15 @@ def run(ctx: Ctx):
         ctx.correspond("MockApi vs api_run", "Corr_C18", acases, aterms, check_fn="check_api")
 
 
+def pair_exclude(test, der, how):
+    """labels not to compare in a stored (test, derived) pair"""
+    if how != "assertion-swapped":
+        return set()
+    d = {c["label"]: c for c in der["cases"]}
+    return {c["label"] for c in test["cases"]
+            if c["label"] in d and any(c.get(a) != d[c["label"]].get(a) for a in ASSERT_KEYS)}
+
+
 async def areplay(ctx: Ctx, case):
     env = Env()
     install()
@@ -1351,7 +1466,7 @@ async def areplay(ctx: Ctx, case):
                                              what=f"fold-prefix: {field} {ra[field]!r} vs {rb[field]!r}", case=case))
                             break
             else:
-                bad = compare_runs(test, ob, der, dob, how != "variants-moved")
+                bad = compare_runs(test, ob, der, dob, how != "variants-moved", exclude=pair_exclude(test, der, how))
                 if bad:
                     ctx.fail(Failure(signature=f"{how}: {bad[0]}", what=f"{how}: {bad[1]}", case=case))
     finally:
